@@ -15,6 +15,7 @@ package websocket
 
 import (
 	"context"
+	"net"
 	"net/http"
 	"runtime"
 	"sync"
@@ -41,6 +42,24 @@ func dial(ctx context.Context) (*websocket.Conn, error) {
 	switch u.Scheme {
 	case "ws", "wss":
 		header := http.Header{"Sec-WebSocket-Protocol": []string{"hprose"}}
+		// the handshake honours the deadline of ctx only: close the connection
+		// when ctx is cancelled before the handshake is over.
+		done := make(chan struct{})
+		defer close(done)
+		d.NetDialContext = func(ctx context.Context, network, addr string) (net.Conn, error) {
+			var nd net.Dialer
+			c, err := nd.DialContext(ctx, network, addr)
+			if err == nil {
+				go func() {
+					select {
+					case <-ctx.Done():
+						_ = c.Close()
+					case <-done:
+					}
+				}()
+			}
+			return c, err
+		}
 		conn, response, err := d.DialContext(ctx, u.String(), header)
 		if response != nil {
 			response.Body.Close()
